@@ -55,6 +55,10 @@ class Check(HCheck):
             al.rule(Aw, "domain"),  # anchored on the www sub-domain, proposes the domain above it
             al.unrule(A),
             al.REOPEN,
+            # clear() handing over another default rule: whatever was remembered about the old one must go
+            al.clear("never"),
+            al.clear("domain"),
+            al.clear("subdomain", {Ax: "path1"}),
         ]
         sp = []
         for default in ("never", "domain", "subdomain"):
